@@ -68,10 +68,28 @@ def check_invariants(inp):
     alg = apfl.adaptive_personalized_federated_learning(grad_fn, optimizers.sgd(5.0), mom, hp, inp.get('coef', 0.9))
     st = alg.init(p0())
     seen = set()
+    ev = None
+    if inp.get('eval'):
+      # the packaged APFL evaluation, interleaved with training on clients that never trained: it reads the table only
+      from fedjax.core import metrics as M
+      emodel = models.Model(init=None, apply_for_train=None, train_loss=None,
+                            apply_for_eval=lambda params, ex: jnp.stack([ex['x'] @ params['w'] + params['b'],
+                                                                          jnp.zeros(len(ex['y']))], axis=-1),
+                            eval_metrics={'acc': M.Accuracy()})
+      ev = apfl.eval_adaptive_personalized_federated_learning(emodel, cds.PaddedBatchHParams(batch_size=4))
     for r, sizes in enumerate(rounds):
       cl = clients_for(r, sizes, shift=3.0)
       st, _ = alg.apply(st, cl)
       seen |= {c[0] for c in cl}
+      if ev is not None:
+        held = [(b'held%d' % i, cds.ClientDataset({'x': np.ones((3, 2), np.float32), 'y': np.zeros(3, np.int32)}))
+                for i in range(2)]
+        before = set(st.client_states)
+        list(ev(st, held + [(c[0], cds.ClientDataset({'x': np.ones((2, 2), np.float32), 'y': np.zeros(2, np.int32)}))
+                            for c in cl]))
+        if set(st.client_states) != before:
+          return (f'apfl: evaluating after round {r + 1} inserted client states for {set(st.client_states) - before} into the '
+                  'server state it was given (clients that never participated in training)')
       if not set(st.client_states) <= seen:
         return f'apfl: client state stored for non-participants {set(st.client_states) - seen}'
       for cid, cs in st.client_states.items():
@@ -175,6 +193,7 @@ def sweep_invariants(tier, seed):
   yield dict(which='agnostic', rounds=R, window=1)
   yield dict(which='apfl', rounds=R, coef=0.9)
   yield dict(which='apfl', rounds=R, coef=0.0)
+  yield dict(which='apfl', rounds=R, coef=0.5, eval=True)
   yield dict(which='hyp', rounds=[[4, 3, 5], [3, 0, 4], [0, 0], [5], [2, 2]])
   yield dict(which='mimelite', rounds=R)
   yield dict(which='mimelite', rounds=R, clip=0.0)
